@@ -397,6 +397,12 @@ def gen_poly(rec, integ_names):
             rows.append(f"    {x} := (({x} : ℝ) : ℂ)")
     out += f"/-- the environment of one call `construct({', '.join(ps)})` with pulse parametrisation `F` and samples `w` -/\n"
     out += f"noncomputable def envOf (F : ℝ → ℝ) {sig} (w : Samples) : Env ℂ :=\n  {{\n" + ",\n".join(rows) + " }\n\n"
+    out += "open scoped ComplexConjugate in\n/-- reality conditions every actual call satisfies: `c s`, strengths, drift integrals and samples are real, `e* = eb`, `i* = -i` -/\n"
+    out += "structure IsReal (v : Env ℂ) : Prop where\n"
+    for x in ENVVARS + fields:
+        rhs = {"e": "v.eb", "eb": "v.e", "i": "-v.i"}.get(x, f"v.{x}")
+        out += f"  {x} : conj v.{x} = {rhs}\n"
+    out += "\n"
     out += "open scoped Matrix.Norms.Operator in\n/-- the sampled gate: `U @ expm(driftArg) @ expm(noiseArg)` (the composition is read off the source) -/\n"
     out += f"noncomputable def gate (v : Env ℂ) : Matrix (Fin {dim}) (Fin {dim}) ℂ :=\n  {U} v * NormedSpace.exp (driftArg v) * NormedSpace.exp (noiseArg v)\n\n"
     out += f"noncomputable def construct (F : ℝ → ℝ) {sig} (w : Samples) : Matrix (Fin {dim}) (Fin {dim}) ℂ :=\n  gate (envOf F {' '.join(ps)} w)\n\n"
@@ -512,6 +518,8 @@ import Mathlib.Analysis.SpecialFunctions.Trigonometric.Basic
 import Mathlib.Analysis.SpecialFunctions.Sqrt
 import Mathlib.LinearAlgebra.Matrix.Notation
 import QG.Spec.Integ
+import QG.Spec.Kron2
+import QG.Spec.Attr
 /-! GENERATED on every run by harness/gen/factories_lean.py from
   {src}  (classes {classes})  and  {isrc}  (`_INTEGRAL_LOOKUP`).
 Source text -> IR (harness/gen/factories.py) -> these definitions.  Do not edit.
@@ -540,7 +548,17 @@ def generate():
             t, m = gen_literal(ir[cname], integ_names)
         out += t
         meta[cname] = m
+    takesF = {}
+    for cname in gf.ELEMENTARY:
+        takesF[meta[cname]["ns"]] = cname in POLY
+        meta[cname].setdefault("dim", 2)
+    for cname in gf.WRAPPERS + gf.COMPOSITE:
+        t, m = gen_composite(ir[cname], ir, integ_names, meta, takesF)
+        out += t
+        meta[cname] = m
+        takesF[m["ns"]] = True
     out += "end QG.Gen\n"
+    out = tag_defs(out)
     core.write_if_changed(os.path.join(core.LEAN, "QG", "Gen", "Factories.lean"), out)
     return ir, meta
 
@@ -555,3 +573,102 @@ def poly_records(ir):
         rec["poly"] = True
         out[cname] = rec
     return out
+
+
+# ------------------------------------------------------------------------------------ composite factories
+def gen_composite(rec, ir, integ_names, metas, takesF):
+    ns = COMPOSITE[rec["class"]]
+    scal, mats = split_program(rec)
+    rr, table, rtext = real_scalars(ns, scal, integ_names, rec["params"])
+    ps = rec["params"]
+    sig = " ".join(f"({p} : ℝ)" for p in ps)
+    fields, callexpr = [], []
+    for k, c in enumerate(rec["calls"]):
+        sub = rec["attrs"].get(c["attr"])
+        if sub is None or c["method"] != "construct":
+            raise Unsupported(f"{ns}: call self.{c['attr']}.{c['method']}")
+        subns = {**{k2: v[0] for k2, v in POLY.items()}, **LITERAL, **COMPOSITE}[sub]
+        fname = c["target"] if c["target"] and re.fullmatch(r"[A-Za-z_][A-Za-z0-9_]*", c["target"]) else f"g{k}"
+        if fname in [f for f, _ in fields]:
+            fname = f"{fname}_{k}"
+        fields.append((fname, subns))
+        if len(c["args"]) != len(ir[sub]["params"]):
+            raise Unsupported(f"{ns}: arity of call {k}")
+        args = " ".join(rr.r(fold(a)) for a in c["args"])
+        callexpr.append(f"({subns}.construct {'F ' if takesF[subns] else ''}{args} w.{fname})")
+    dims = {}
+
+    def mexpr(e):
+        t = e[0]
+        if t == "gate":
+            return callexpr[e[1]]
+        if t == "matmul":
+            return f"({mexpr(e[1])} * {mexpr(e[2])})"
+        if t == "kron":
+            return f"(QG.Spec.kron2 {mexpr(e[1])} {mexpr(e[2])})"
+        if t == "smul":
+            return f"({lean_C(fold(e[1]), rr)} • {mexpr(e[2])})"
+        raise Unsupported(f"{ns}: composite expression {t}")
+
+    md = dict(mats)
+
+    def inline(e):
+        if isinstance(e, Mat):
+            raise Unsupported(f"{ns}: literal matrix in a composite factory")
+        if e[0] == "mvar":
+            return inline(md[e[1]])
+        if e[0] in ("matmul", "kron"):
+            return (e[0], inline(e[1]), inline(e[2]))
+        if e[0] == "smul":
+            return ("smul", e[1], inline(e[2]))
+        return e
+
+    res = inline(rec["result"])
+
+    def dim(e):
+        t = e[0]
+        if t == "gate":
+            return metas[rec["attrs"][rec["calls"][e[1]]["attr"]]]["dim"]
+        if t == "matmul":
+            a, b = dim(e[1]), dim(e[2])
+            if a != b:
+                raise Unsupported(f"{ns}: product of {a}x{a} with {b}x{b}")
+            return a
+        if t == "kron":
+            if dim(e[1]) != 2 or dim(e[2]) != 2:
+                raise Unsupported(f"{ns}: kron of non-2x2")
+            return 4
+        if t == "smul":
+            return dim(e[2])
+        raise Unsupported(f"{ns}: composite expression {t}")
+
+    d = dim(res)
+    out = f"namespace {ns}\n\n" + rtext
+    out += "/-- the samples of the constituent pulses, one record per constituent call (in call order) -/\nstructure Samples where\n" + \
+        "".join(f"  {f} : {s}.Samples\n" for f, s in fields) + "\n"
+    out += f"/-- `{rec['class']}.construct`: the product is read off the source; every constituent call with its argument expressions -/\n"
+    out += f"noncomputable def construct (F : ℝ → ℝ) {sig} (w : Samples) : Matrix (Fin {d}) (Fin {d}) ℂ :=\n  {mexpr(res)}\n\n"
+    out += f"end {ns}\n\n"
+    meta = {"ns": ns, "dim": d, "params": ps, "fields": fields, "scalars": {n: table[n][0] for n in table},
+            "calls": [{"field": f, "sub": s, "attr": c["attr"], "src": c["src"]} for (f, s), c in zip(fields, rec["calls"])]}
+    return out, meta
+
+
+def tag_defs(text):
+    """append `attribute [qg_unfold] ...` for every definition, namespace by namespace"""
+    out, stack, names = [], [], {}
+    for line in text.split("\n"):
+        m = re.match(r"namespace (\S+)", line)
+        if m:
+            stack.append(m.group(1)); names.setdefault(tuple(stack), [])
+        m2 = re.match(r"(?:noncomputable )?def (\S+)", line)
+        if m2 and stack:
+            names[tuple(stack)].append(m2.group(1))
+        m3 = re.match(r"end (\S+)", line)
+        if m3 and stack and stack[-1] == m3.group(1):
+            ns = names.get(tuple(stack), [])
+            if ns:
+                out.append("attribute [qg_unfold] " + " ".join(ns) + "\n")
+            stack.pop()
+        out.append(line)
+    return "\n".join(out)
